@@ -33,7 +33,7 @@ type vpC24Prop struct {
 
 func TestVP_C24_retire_requeues(t *testing.T) {
 	c := kit.New(t, "C24", "rapid: on a real node's own chain, 1..6 in-flight local proposals (aggregators + verifier entries installed exactly as an announcement does) over 2..8 transactions with overlaps; per transaction: finalized or not, body in the cache / only in the ledger store / nowhere; per proposal: snapshot time relative to now (expired after a round gap or not), commitment and response counts relative to the threshold; all transactions start in flight (queued, then retrieved); one retirement operation runs: expiry at 'now', abandon-and-retry of one proposal, or a round reset with an owned set; oracle: draining the cache queue afterwards must contain every transaction of a retired proposal that is unfinalized, has a body and is not in a still-active proposal (reset: not owned); must not contain transactions that belong only to still-active proposals, are finalized, have no body, or are owned; shared retired/active transactions may go either way; retired aggregators are gone, active ones and their verifier entries stay (reset clears all); non-trivial = >=2 proposals sharing a transaction with both a retired and an active one; distinct by scenario")
-	c.Require("expire", "retry", "reset", "shared-retired-active", "finalized-tx", "bodyless-tx", "persist-only-body", "completed-not-expired", "owned")
+	c.Require("expire", "retry", "reset", "shared-retired-active", "finalized-tx", "bodyless-tx", "persist-only-body", "completed-not-expired", "owned", "challenge-phase")
 	kit.SetChecks(kit.N(120, 3000))
 	rapid.Check(t, func(t *rapid.T) {
 		e := vpC16Start("c24")
@@ -123,6 +123,18 @@ func TestVP_C24_retire_requeues(t *testing.T) {
 			}
 			for j := 0; j < nr; j++ {
 				agg.Responses[j] = &[32]byte{byte(j + 1)}
+			}
+			if nc >= base && rapid.IntRange(0, 3).Draw(t, "challenged") != 0 {
+				// challenge phase: once the commitment threshold is reached the
+				// proposer attaches the aggregate commitment and mask to its
+				// snapshot and waits for the responses
+				cs := &crypto.CosiSignature{}
+				for j := 0; j < nc; j++ {
+					cs.Mask |= 1 << uint(j)
+				}
+				copy(cs.Signature[:], vpKSeed("c24-agg", i))
+				s.Signature = cs
+				c.Class("challenge-phase")
 			}
 			p.done = nc >= base && nr == nc
 			v := &CosiVerifier{Snapshot: s}
